@@ -900,6 +900,19 @@ func c01Gen(r *Rng, tier string) []string {
 	var out []string
 	for i := 0; i < n; i++ {
 		out = append(out, envGenCfg(r)+"|none")
+		if i%8 == 0 {
+			// "together with ... the true sender key": valid envelopes sealed by hand whose sender hints (apu, skid, iss)
+			// name somebody else than the party whose key authenticated the envelope; judged by the C02 contract
+			kt := r.Pick([]string{"x25519", "p256", "p384", "p521"})
+			mut := r.Pick([]string{"forge:apu", "forge:apu+skid", "forge:skid", "forge:apu+iss", "forge:mallory"})
+			nrec := 1 + r.N(3)
+			en := "xc"
+			if mut == "forge:mallory" {
+				nrec, en = 1, r.Pick([]string{"xc", "c128", "c512"})
+			}
+			out = append(out, fmt.Sprintf("aj,%s,%s,%d,%s,%s|%s", kt, en, nrec, r.Pick([]string{"j", "b40"}),
+				r.Pick([]string{"dk", "dd"}), mut))
+		}
 	}
 	return out
 }
